@@ -433,7 +433,7 @@ def install(P, max_split=4):
         return clone_val(v)
 
     def find_from_impl(ctx, v, c):
-        dst = re.sub(r"<.*", "", strip_generics(c.selfty or "")).split("::")[-1]
+        dst = short_ty(re.sub(r"<.*", "", strip_generics(c.selfty or "")))
         if c.key == "Into::into":
             dst = None
         src = type_tag(v)
@@ -450,7 +450,7 @@ def install(P, max_split=4):
         if isinstance(v, Adt):
             return v.ty
         if isinstance(v, Opaque):
-            return v.tag.split("::")[-1]
+            return short_ty(v.tag)
         if hasattr(v, "type_tag"):
             return v.type_tag
         return None
@@ -1097,7 +1097,7 @@ def install(P, max_split=4):
             from .parse import split_top
             inner = t[t.index("<") + 1: t.rindex(">")]
             parts = split_top(inner)
-            tgt = re.sub(r"<.*", "", parts[-1].strip()).split("::")[-1]
+            tgt = short_ty(re.sub(r"<.*", "", parts[-1].strip()))
         src = type_tag(e)
         if src is not None and tgt is not None and src != tgt:
             name = P.from_index.get((src, tgt))
@@ -1458,7 +1458,11 @@ def install(P, max_split=4):
 
     @P.summary("Iterator::collect", "FromIterator::from_iter")
     def _collect(ctx, c):
-        gen = (c.gen or c.selfty or "").strip()
+        gen = ((c.selfty or c.gen) if c.key.endswith("from_iter") else (c.gen or c.selfty) or "").strip()
+        if c.key.endswith("from_iter") and not c.selfty:
+            gen = re.sub(r"::from_iter.*", "", strip_generics(c.callee)) if "::<" not in c.callee else c.callee[:c.callee.index("::from_iter")]
+            gen = re.sub(r"::<", "<", gen)
+        gen = c.resolve(gen)
         gen = re.sub(r"^(std|alloc|core)::\w+::", "", gen)
         it = to_iter(ctx, c.args[0], False)
         m = re.match(r"(?:std::option::)?Option<(.*)>$", gen)
